@@ -90,12 +90,16 @@ def section(ctx):
     # ---- path quoting
     def path_safe():
         pr = func('S3Compatible', '_prepare_request')
-        calls = lib_calls(pr, ('quote', 'quote_plus', 'quote_from_bytes', 'unquote'))
-        assert len(calls) == 1, [un(c) for c in calls]
+        # the call that encodes the `canonical_uri` parameter (this is the string that is signed); other uses of the quoting
+        # functions are only noted — whether the string sent equals the string signed is checked by the differential runs
+        allc = lib_calls(pr, ('quote', 'quote_plus', 'quote_from_bytes', 'unquote'))
+        calls = [c for c in allc if c.args and un(c.args[0]) == 'canonical_uri']
+        if len(allc) != len(calls):
+            notes['s3.other_quote_calls'] = [un(c) for c in allc if c not in calls]
+        assert len(calls) == 1, [un(c) for c in allc]
         call = calls[0]
         which = lib(call.func.id)
         assert which == 'quote', which
-        assert un(call.args[0]) == 'canonical_uri', un(call)
         safe = '/'
         if len(call.args) >= 2:
             safe = ast.literal_eval(call.args[1])
@@ -191,7 +195,7 @@ def section(ctx):
     def sh_sep():
         pr = func('S3Compatible', '_prepare_request')
         v = one_assign(pr, 'signed_headers')
-        assert isinstance(v, ast.Call) and isinstance(v.func, ast.Attribute) and v.func.attr == 'join' and un(v.args[0]) == 'canonical_headers'
+        assert isinstance(v, ast.Call) and isinstance(v.func, ast.Attribute) and v.func.attr == 'join' and un(v.args[0]) in ('canonical_headers', 'canonical_headers.keys()', 'list(canonical_headers)')
         return _bl(ast.literal_eval(v.func.value))
     item('s3SignedHeadersSep', 'List UInt8', sh_sep)
 
@@ -354,22 +358,32 @@ def section(ctx):
 
     # ---- listing query
     def list_keys():
+        """names of the query parameters `_list_objects` can send: the literal dict it starts with and the two conditional
+        additions (value = the `continuation_token` / `prefix` argument).  The conditions themselves are modelled by hand
+        (`listQuery`) and validated by the differential runs; their shape is only an informational flag."""
+        f = func('S3Compatible', '_list_objects')
+        q = ast.literal_eval(one_assign(f, 'query'))
+        assert isinstance(q, dict) and len(q) == 1 and all(isinstance(k, str) and isinstance(v, str) for k, v in q.items()), q
+        (k0, v0), = q.items()
+        byval = {}
+        for n in ast.walk(f):
+            if isinstance(n, ast.Assign) and isinstance(n.targets[0], ast.Subscript) and un(n.targets[0].value) == 'query':
+                byval.setdefault(un(n.value), []).append(ast.literal_eval(n.targets[0].slice))
+        assert set(byval) == {'continuation_token', 'prefix'} and all(len(v) == 1 for v in byval.values()), byval
+        return k0, v0, byval['continuation_token'][0], byval['prefix'][0]
+
+    def list_shape():
         f = func('S3Compatible', '_list_objects')
         body = [un(s) for s in f.body]
-        q = ast.literal_eval(one_assign(f, 'query'))
-        assert isinstance(q, dict) and len(q) == 1
-        (k0, v0), = q.items()
         subs = []
         for n in f.body:
             if isinstance(n, ast.If):
                 assert len(n.body) == 1 and not n.orelse
-                a = n.body[0]
-                assert isinstance(a, ast.Assign) and un(a.targets[0].value) == 'query'
-                subs.append((un(n.test), ast.literal_eval(a.targets[0].slice), un(a.value)))
-        assert [(t, v) for t, _, v in subs] == [('continuation_token is not None', 'continuation_token'), ('prefix', 'prefix')], subs
+                subs.append(un(n.test))
+        assert subs == ['continuation_token is not None', 'prefix'], subs
         assert body[-1].replace('\n', '').replace(' ', '') == \
             "returnawaitself._make_request('GET',f'/{self.bucket_name}',query=query,payload_digest=_empty_payload_digest)", body[-1]
-        return k0, v0, subs[0][1], subs[1][1]
+    flag('s3ListShape', list_shape)
     item('s3ListTypeKey', 'List UInt8', lambda: _bl(list_keys()[0]))
     item('s3ListTypeValue', 'List UInt8', lambda: _bl(list_keys()[1]))
     item('s3TokenKey', 'List UInt8', lambda: _bl(list_keys()[2]))
